@@ -58,6 +58,24 @@ func init() {
 		}})
 }
 
+// vaStages classifies the VerifyArtifacts calls of an entry point (direct or in a helper) into the step round
+// and the inspection round by the producer of their item list.
+func (c *Ctx) vaStages(f *ssa.Function) (stepsVA, inspVA *stageCall) {
+	for _, va := range c.stages(f, "in_toto.VerifyArtifacts") {
+		pc, _ := producer(va.call.Common().Args[0], va.call)
+		if pc == nil {
+			continue
+		}
+		switch calleeName(pc) {
+		case "(*in_toto.Layout).stepsAsInterfaceSlice":
+			stepsVA = va
+		case "(*in_toto.Layout).inspectAsInterfaceSlice":
+			inspVA = va
+		}
+	}
+	return
+}
+
 func ruleC05_1(c *Ctx) {
 	const R = "R-C05-1"
 	for _, e := range c.entryPoints() {
@@ -76,66 +94,69 @@ func ruleC05_1(c *Ctx) {
 			{"in_toto.GetSummaryLink", 1, "in_toto.ReduceStepsMetadata", 0},
 		}
 		for _, ed := range edges {
-			call := firstCall(e.f, ed.consumer)
-			ok, d := argFrom(call, ed.arg, ed.producer, ed.res)
+			st := c.stage(e.f, ed.consumer)
+			ok, d := c.stageArgFrom(st, ed.arg, ed.producer, ed.res)
 			pos := e.f.Pos()
-			if call != nil {
-				pos = call.Pos()
+			if st != nil {
+				pos = st.site().Pos()
 			}
 			c.check(ok, R, fn, fmt.Sprintf("%s arg%d <- %s#%d", trimPkg(ed.consumer), ed.arg, trimPkg(ed.producer), ed.res), pos,
 				"def-use edge present", "stage "+ed.consumer+" does not receive the result of "+ed.producer+": "+d)
 		}
-		// the two VerifyArtifacts calls
-		var stepsVA, inspVA ssa.CallInstruction
-		for _, va := range callsIn(e.f, "in_toto.VerifyArtifacts") {
-			pc, _ := producer(va.Common().Args[0], va)
-			if pc == nil {
-				continue
-			}
-			switch calleeName(pc) {
-			case "(*in_toto.Layout).stepsAsInterfaceSlice":
-				stepsVA = va
-			case "(*in_toto.Layout).inspectAsInterfaceSlice":
-				inspVA = va
-			}
-		}
-		ok, d := argFrom(stepsVA, 1, "in_toto.ReduceStepsMetadata", 0)
+		stepsVA, inspVA := c.vaStages(e.f)
+		ok, d := c.stageArgFrom(stepsVA, 1, "in_toto.ReduceStepsMetadata", 0)
 		c.check(ok, R, fn, "VerifyArtifacts(steps) arg1 <- ReduceStepsMetadata#0", e.f.Pos(), "step rules are evaluated against the reduced (counted, agreed) links", "step rules are not evaluated against the reduced verified links: "+d)
-		ok, d = argFrom(inspVA, 1, "in_toto.RunInspections", 0)
+		ok, d = c.stageArgFrom(inspVA, 1, "in_toto.RunInspections", 0)
 		c.check(ok, R, fn, "VerifyArtifacts(inspect) arg1 <- RunInspections#0", e.f.Pos(), "inspection rules are evaluated against the inspection links", "inspection rules are not evaluated against RunInspections' result: "+d)
-		// merge loop: every reduced link is stored into the inspection metadata
+		// merge loop: every reduced link is stored into the inspection metadata (in the entry point or in the helper
+		// that runs the inspections)
 		merged := false
-		for _, b := range e.f.Blocks {
-			for _, in := range b.Instrs {
-				mu, ok := in.(*ssa.MapUpdate)
-				if !ok {
-					continue
-				}
-				mp, mi := producer(mu.Map, mu)
-				if mp == nil || calleeName(mp) != "in_toto.RunInspections" || mi != 0 {
-					continue
-				}
-				ke, ok1 := mu.Key.(*ssa.Extract)
-				ve, ok2 := mu.Value.(*ssa.Extract)
-				if !ok1 || !ok2 || ke.Tuple != ve.Tuple {
-					continue
-				}
-				nx, ok := ke.Tuple.(*ssa.Next)
-				if !ok {
-					continue
-				}
-				rg, ok := nx.Iter.(*ssa.Range)
-				if !ok {
-					continue
-				}
-				rp, ri := producer(rg.X, rg)
-				if rp != nil && calleeName(rp) == "in_toto.ReduceStepsMetadata" && ri == 0 && ke.Index == 1 && ve.Index == 2 {
-					// unconditional in the loop body: the store's block is (or is always reached from) the body entry
-					if okv := extractOf(nx, 0); okv != nil {
-						for _, cu := range condUsers(okv, false) {
-							body := branchTaken(cu, true)
-							if body == mu.Block() || (body.Dominates(mu.Block()) && postDominatesSimple(mu.Block(), body)) {
-								merged = true
+		frames := []*ssa.Function{e.f}
+		if inspVA != nil && inspVA.g != nil {
+			frames = append(frames, inspVA.g)
+		}
+		for _, fr := range frames {
+			for _, b := range fr.Blocks {
+				for _, in := range b.Instrs {
+					mu, ok := in.(*ssa.MapUpdate)
+					if !ok {
+						continue
+					}
+					mp, mi := producer(mu.Map, mu)
+					if mp == nil || calleeName(mp) != "in_toto.RunInspections" || mi != 0 {
+						continue
+					}
+					ke, ok1 := mu.Key.(*ssa.Extract)
+					ve, ok2 := mu.Value.(*ssa.Extract)
+					if !ok1 || !ok2 || ke.Tuple != ve.Tuple {
+						continue
+					}
+					nx, ok := ke.Tuple.(*ssa.Next)
+					if !ok {
+						continue
+					}
+					rg, ok := nx.Iter.(*ssa.Range)
+					if !ok {
+						continue
+					}
+					// the ranged map is the reduced map: directly, or the helper parameter that receives it
+					isReduced := false
+					rv, rat := ssa.Value(rg.X), ssa.Instruction(rg)
+					if fr != e.f && inspVA != nil {
+						if prm, ok := resolve(rv, rat).(*ssa.Parameter); ok && prm.Parent() == fr {
+							rv, rat = inspVA.via.Common().Args[paramIndex(prm)], inspVA.via
+						}
+					}
+					if n, i := c.deepProducer(rv, rat); n == "in_toto.ReduceStepsMetadata" && i == 0 {
+						isReduced = true
+					}
+					if isReduced && ke.Index == 1 && ve.Index == 2 {
+						if okv := extractOf(nx, 0); okv != nil {
+							for _, cu := range condUsers(okv, false) {
+								body := branchTaken(cu, true)
+								if body == mu.Block() || (body.Dominates(mu.Block()) && postDominatesSimple(mu.Block(), body)) {
+									merged = true
+								}
 							}
 						}
 					}
@@ -871,38 +892,27 @@ func ruleC09_1(c *Ctx) {
 	const R = "R-C09-1"
 	for _, e := range c.entryPoints() {
 		fn := fname(e.f)
-		ri := firstCall(e.f, "in_toto.RunInspections")
+		ri := c.stage(e.f, "in_toto.RunInspections")
 		if ri == nil {
 			c.bad(R, fn, "RunInspections", e.f.Pos(), "inspections are never run")
 			continue
 		}
-		var stepsVA, inspVA ssa.CallInstruction
-		for _, va := range callsIn(e.f, "in_toto.VerifyArtifacts") {
-			pc, _ := producer(va.Common().Args[0], va)
-			if pc == nil {
-				continue
-			}
-			switch calleeName(pc) {
-			case "(*in_toto.Layout).stepsAsInterfaceSlice":
-				stepsVA = va
-			case "(*in_toto.Layout).inspectAsInterfaceSlice":
-				inspVA = va
-			}
-		}
-		pre := map[string]ssa.CallInstruction{
-			"VerifyLinkSignatureThesholds": firstCall(e.f, "in_toto.VerifyLinkSignatureThesholds"),
-			"VerifySublayouts":             firstCall(e.f, "in_toto.VerifySublayouts"),
-			"ReduceStepsMetadata":          firstCall(e.f, "in_toto.ReduceStepsMetadata"),
+		stepsVA, inspVA := c.vaStages(e.f)
+		pre := map[string]*stageCall{
+			"VerifyLinkSignatureThesholds": c.stage(e.f, "in_toto.VerifyLinkSignatureThesholds"),
+			"VerifySublayouts":             c.stage(e.f, "in_toto.VerifySublayouts"),
+			"ReduceStepsMetadata":          c.stage(e.f, "in_toto.ReduceStepsMetadata"),
 			"VerifyArtifacts(steps)":       stepsVA,
 		}
 		for _, n := range []string{"VerifyLinkSignatureThesholds", "VerifySublayouts", "ReduceStepsMetadata", "VerifyArtifacts(steps)"} {
-			g := pre[n]
-			c.check(g != nil && c.okCallAt(g, ri.Block()), R, fn, "RunInspections after successful "+n, ri.Pos(), "dominated by nil-error edge", "inspection commands can run although "+n+" has not succeeded")
+			c.check(c.stageAfter(ri, pre[n]), R, fn, "RunInspections after successful "+n, ri.site().Pos(), "dominated by nil-error edge", "inspection commands can run although "+n+" has not succeeded")
 		}
 		for _, r := range c.nilErrReturns(e.f) {
-			c.check(c.okCallAt(ri, r.Block()), R, fn, "success return after successful RunInspections", instrPos(r), "dominated by nil-error edge", "verification can succeed without the inspections having run successfully")
-			c.check(inspVA != nil && c.okCallAt(inspVA, r.Block()), R, fn, "success return after successful inspection rules", instrPos(r), "dominated by nil-error edge of VerifyArtifacts(inspect)", "verification can succeed without the inspection rules having been checked")
+			c.check(c.stageOKAt(ri, r.Block()), R, fn, "success return after successful RunInspections", instrPos(r), "dominated by nil-error edge", "verification can succeed without the inspections having run successfully")
+			c.check(inspVA != nil && c.stageOKAt(inspVA, r.Block()), R, fn, "success return after successful inspection rules", instrPos(r), "dominated by nil-error edge of VerifyArtifacts(inspect)", "verification can succeed without the inspection rules having been checked")
 		}
+		// option wiring (R-C09-6): run directory, line normalisation and wrapper kind reach RunInspections unchanged
+		c.optionWiring(e, ri)
 	}
 	// inspectAsInterfaceSlice covers the whole slice
 	for _, n := range []string{"(*in_toto.Layout).inspectAsInterfaceSlice", "(*in_toto.Layout).stepsAsInterfaceSlice"} {
@@ -1176,4 +1186,97 @@ func ruleC09_5(c *Ctx) {
 		}
 	}
 	c.check(len(runUsers) == 1 && runUsers[0] == "in_toto.RunInspections", R, "in_toto", "from verification, InTotoRun is called only by RunInspections", 0, fmt.Sprint(runUsers), fmt.Sprintf("InTotoRun is called from %v on the verification paths", runUsers))
+}
+
+// optionWiring checks that the entry point's options reach the stages that take them, also through a helper:
+// RunInspections(layout, runDir|"", lineNormalization, useDSSE), VerifySublayouts(..., linkDir, intermediatePems,
+// lineNormalization), GetSummaryLink(..., stepName, useDSSE).
+func (c *Ctx) optionWiring(e entry, ri *stageCall) {
+	const R = "R-C09-6"
+	fn := fname(e.f)
+	// the entry point's bool parameter (line normalisation) and the wrapper-kind value
+	var boolParam *ssa.Parameter
+	for _, prm := range e.f.Params {
+		if isBool(prm.Type().Underlying()) {
+			boolParam = prm
+		}
+	}
+	isUseDSSE := func(v ssa.Value, at ssa.Instruction) bool {
+		ph, ok := resolve(v, at).(*ssa.Phi)
+		if !ok {
+			return false
+		}
+		for i, ed := range ph.Edges {
+			cv, isC := ed.(*ssa.Const)
+			if !isC {
+				return false
+			}
+			pb := ph.Block().Preds[i]
+			// the true edge comes from a successful env.(*Envelope) assertion
+			if cv.Value.String() == "true" {
+				found := false
+				for _, b := range e.f.Blocks {
+					for _, in := range b.Instrs {
+						if ta, ok := in.(*ssa.TypeAssert); ok && ta.CommaOk && ta.X == ssa.Value(e.env) && typeStr(ta.AssertedType) == "*in_toto.Envelope" {
+							if okv := extractOf(ta, 1); okv != nil && (c.condAt(okv, true, pb) || edgeFact(pb, ph.Block(), okv, true)) {
+								found = true
+							}
+						}
+					}
+				}
+				if !found {
+					return false
+				}
+			}
+		}
+		return true
+	}
+	isParam := func(v ssa.Value, at ssa.Instruction, prm *ssa.Parameter) bool {
+		return prm != nil && resolve(v, at) == ssa.Value(prm)
+	}
+	if ri != nil {
+		v, at := ri.arg(2)
+		c.check(isParam(v, at, boolParam), R, fn, "RunInspections gets the caller's line-normalisation flag", ri.site().Pos(), "lineNormalization parameter", "RunInspections' lineNormalization argument is "+short(org(v))+", not the entry point's flag")
+		v, at = ri.arg(3)
+		c.check(isUseDSSE(v, at), R, fn, "RunInspections gets the wrapper kind of the layout", ri.site().Pos(), "useDSSE = layoutEnv is *Envelope", "RunInspections' useDSSE argument is "+short(org(v))+", not derived from the layout's wrapper")
+		v, at = ri.arg(1)
+		rv := resolve(v, at)
+		okDir := false
+		if s, isS := constString(rv); isS && s == "" {
+			okDir = true
+		}
+		if prm, isP := rv.(*ssa.Parameter); isP {
+			// the run directory parameter is the one that was checked with os.Stat
+			for _, st := range callsIn(e.f, "os.Stat") {
+				if resolve(st.Common().Args[0], st) == ssa.Value(prm) {
+					okDir = true
+				}
+			}
+		}
+		c.check(okDir, R, fn, "RunInspections runs in the requested directory", ri.site().Pos(), "\"\" or the checked runDir parameter", "inspections run in "+short(org(v)))
+	}
+	if vs := c.stage(e.f, "in_toto.VerifySublayouts"); vs != nil {
+		v, at := vs.arg(4)
+		c.check(isParam(v, at, boolParam), R, fn, "VerifySublayouts gets the caller's line-normalisation flag", vs.site().Pos(), "lineNormalization parameter", "argument is "+short(org(v)))
+		// link dir and intermediates are the ones used for this layout's own links / pools
+		ll := c.stage(e.f, "in_toto.LoadLinksForLayout")
+		lc := c.stage(e.f, "in_toto.LoadLayoutCertificates")
+		if ll != nil {
+			a, aat := vs.arg(2)
+			b, bat := ll.arg(1)
+			c.check(resolve(a, aat) == resolve(b, bat), R, fn, "sublayout directories are resolved relative to this layout's link directory", vs.site().Pos(), "same linkDir value as LoadLinksForLayout", "VerifySublayouts gets another directory than the one the links were loaded from")
+		}
+		if lc != nil {
+			a, aat := vs.arg(3)
+			b, bat := lc.arg(1)
+			c.check(resolve(a, aat) == resolve(b, bat), R, fn, "sublayouts get the caller's intermediates", vs.site().Pos(), "same intermediatePems value as LoadLayoutCertificates", "VerifySublayouts gets other intermediates")
+		}
+	}
+	if gs := c.stage(e.f, "in_toto.GetSummaryLink"); gs != nil {
+		v, at := gs.arg(3)
+		c.check(isUseDSSE(v, at), R, fn, "the summary link uses the layout's wrapper kind", gs.site().Pos(), "useDSSE", "argument is "+short(org(v)))
+		v, at = gs.arg(2)
+		_, isP := resolve(v, at).(*ssa.Parameter)
+		c.check(isP && typeStr(v.Type()) == "string", R, fn, "the summary link is named by the stepName parameter", gs.site().Pos(), org(v), "summary name is "+short(org(v)))
+	}
 }
